@@ -521,7 +521,7 @@ func (e *Enc) notLocal(v Val) string {
 
 // notGhost: program pointers never point at the reserved ids of ghost variables.
 func (e *Enc) notGhost(obj string) string {
-	if e.M != ModeInt || len(e.CS.GhostOrd) == 0 {
+	if len(e.CS.GhostOrd) == 0 {
 		return "true"
 	}
 	return or(e.M.ilt(obj, e.M.ilit(49000)), e.M.ilt(e.M.ilit(100000), obj))
@@ -841,6 +841,21 @@ func (e *Enc) variableContainers() []string {
 
 func (e *Enc) havocAll(st *State) {
 	keep := e.preservedObjs(st)
+	// syntax tree nodes passed as parameters: the interpreter and expander never write the tree (C29 obligations)
+	astKept := false
+	for _, p := range e.Fn.Params {
+		if pt, ok := p.Type().Underlying().(*types.Pointer); ok && isASTType(p.Type()) {
+			if _, isStruct := pt.Elem().Underlying().(*types.Struct); isStruct {
+				if x, ok := e.vals[p]; ok && !x.Bad && len(x.L) == 2 {
+					keep = append(keep, x.L[0])
+					astKept = true
+				}
+			}
+		}
+	}
+	if astKept {
+		e.assumptions["syntax tree nodes passed as parameters are not written by callees (the frame proved by the C29 obligations)"] = true
+	}
 	if vc := e.variableContainers(); len(vc) > 0 {
 		keep = append(keep, vc...)
 		e.assumptions["containers held by expand.Variable values are not written in place by callees (the discipline proved by the C27 obligations)"] = true
